@@ -214,6 +214,13 @@ def geometries(c):
         {'cls': 'compound', 'op': 'xor',
          'r1': {'cls': 'regpoly', 'center': c, 'n': 5, 'radius': 4.0, 'angle': [12.0, 'deg', 'quantity']},
          'r2': {'cls': 'circleannulus', 'center': c2, 'inner_radius': 1.5, 'outer_radius': 4.0}},
+        # both operands are shapes without area (their membership answers are plain booleans, not arrays)
+        {'cls': 'compound', 'op': 'or',
+         'r1': {'cls': 'point', 'center': c},
+         'r2': {'cls': 'line', 'start': c2, 'end': [c2[0] + 3.0, c2[1] - 1.5]}},
+        {'cls': 'compound', 'op': 'xor',
+         'r1': {'cls': 'text', 'center': c, 'text': 'a label'},
+         'r2': {'cls': 'point', 'center': c2}},
     ]
 
 
@@ -508,6 +515,13 @@ def cmp_sky(cx, reg, s, ws, frame, leg, path='S3'):
         _cmp_angle(cx, leg, f'{path}.angle', W.angle_deg(reg.angle), G.rad(s.get('angle')) / W.DEG)
     if cls == 'text' and reg.text != s.get('text', 'hello'):
         cx.bad('text_changed', f'{leg}: {path}.text is {reg.text!r}, originally {s.get("text")!r}', s.get('text'), reg.text)
+
+
+def _areal_free(spec):
+    """The region is a point / line / text, or a compound of such: its sky classes answer with one bool for any query."""
+    if spec['cls'] == 'compound':
+        return _areal_free(spec['r1']) and _areal_free(spec['r2'])
+    return spec['cls'] in G.EMPTY
 
 
 def _same_answers(a, b, empty_cls):
@@ -828,7 +842,7 @@ def check_config(res, spec, ws, index=0, pre=None):
         b = None if pc is None else _call(cx, 'pixel image contains(array)', lambda: P2.contains(pc))
         res.transitions += 2
         if a is not None and b is not None:
-            diff = _same_answers(a, b, cls in G.EMPTY)
+            diff = _same_answers(a, b, _areal_free(spec))
             if diff:
                 cx.bad('contains_sky_vs_pixel_image', f'sky.contains(sc, wcs) and sky.to_pixel(wcs).contains(PixCoord.from_sky(sc, wcs)) '
                                                       f'disagree on {qx.size} positions: {diff}')
@@ -875,7 +889,7 @@ def check_config(res, spec, ws, index=0, pre=None):
             b1 = None if pc1 is None else _call(cx, 'pixel image contains(scalar)', lambda: P2.contains(pc1))
             res.transitions += 2
             if a1 is not None and b1 is not None:
-                diff = _same_answers(a1, b1, cls in G.EMPTY)
+                diff = _same_answers(a1, b1, _areal_free(spec))
                 if diff:
                     cx.bad('contains_sky_vs_pixel_image', f'scalar query at pixel ({float(qx[k])!r}, {float(qy[k])!r}): {diff} '
                                                           f'(sky {a1!r}, pixel image {b1!r})')
@@ -884,7 +898,7 @@ def check_config(res, spec, ws, index=0, pre=None):
                                                       f'reference membership of the original pixel region {bool(want[k])}', bool(want[k]), repr(a1))
         # the answer must follow the sky region's *current* state: flip its include flag in place and ask again
         # with the same WCS object (differential oracle: the pixel image of the edited region)
-        if a is not None and index % 3 == 0 and cls not in G.EMPTY:
+        if a is not None and index % 3 == 0 and not _areal_free(spec):
             try:
                 S1.meta['include'] = not bool(S1.meta.get('include', True))
                 a2 = S1.contains(sc, w)
